@@ -517,7 +517,8 @@ SCENARIOS_B = {}
 
 def scenarios_b(tier):
     """Scenario sizes (schedules, single-core seconds) were measured; every listed scenario is explored
-    completely.  Larger combinations (2 jobs x 2 breaks, 2 jobs x break x stop, 3 jobs x break) exceed
+    completely.  Larger combinations (2 jobs x 2 breaks, 2 jobs x break x stop, 3 jobs x break, 2 jobs x break
+    with late processing) exceed
     10^6 schedules and are NOT part of any tier (stated in DESIGN.md, section 10)."""
     S = []
     quick = [Scenario(njobs=1, breaks=2), Scenario(njobs=1, breaks=2, pre_prog=True), Scenario(njobs=1, breaks=1, pre_jobs=(0,)),
@@ -535,7 +536,7 @@ def scenarios_b(tier):
         Scenario(njobs=1, breaks=3), Scenario(njobs=1, breaks=3, pre_prog=True), Scenario(njobs=1, breaks=2, pre_jobs=(0,)),
         Scenario(njobs=2, breaks=1, pre_jobs=(1,)), Scenario(njobs=2, breaks=1, cancel=1), Scenario(njobs=2, breaks=1, srverr=1),
         Scenario(njobs=2, breaks=1, failing=(job_name(0),)),
-        Scenario(njobs=1, breaks=3, late=True), Scenario(njobs=2, breaks=1, late=True),
+        Scenario(njobs=1, breaks=3, late=True),
         Scenario(njobs=3, breaks=0),
         Scenario(njobs=1, breaks=1, deviations=2), Scenario(njobs=1, breaks=0, cancel=1, deviations=2),
         Scenario(njobs=2, breaks=1, deviations=1), Scenario(njobs=2, breaks=0, cancel=1, deviations=1),
